@@ -252,7 +252,7 @@ func checkMtree(c *fw.Case, site string, out []byte, want map[string]*treeEntry,
 }
 
 func runC05(c *fw.Case) {
-	if desyncBin() != "" && c.Chance(1, 60, "c05.proc") {
+	if desyncBin() != "" && c.Chance(1, procRate(60), "c05.proc") {
 		runC05Proc(c)
 		return
 	}
